@@ -275,6 +275,7 @@ def handle (line : String) : String :=
       some (finish (← units.toNat?) (← suffix.toNat?) (packModel m s) s.all (unpackedModel m s) (modelWf s))) with
     | some r => r
     | none => bad
+  | "idx" :: _ => Physis.Driver.C01.handle line
   | "xarch" :: pl :: dirs :: qs :: mode :: records =>
     match handleXarch pl dirs qs mode records with
     | some r => r
